@@ -225,7 +225,16 @@ def gen_c10(r, tier, info):
         t2 = b.op("debug 2")
         b.op("clone 0 3")
         t3 = b.op("debug 3")
-        for t in (t1, t2, t3):
+        # the collection BuildHasher routes: a keyed builder, the Default builder, a builder shared by the whole process
+        b.op(f"bh 10 {kstr(key)}")
+        t4 = b.op("debug 10")
+        b.op("bhd 11")
+        t5 = b.op("debug 11")
+        b.op("shbh 12 1")
+        t6 = b.op("debug 12")
+        b.op("clonefrom 0 11")
+        t7 = b.op("debug 11")
+        for t in (t1, t2, t3, t4, t5, t6, t7):
             b.eq(t0, t, "HighwayHasher obtained in different ways selected different back ends")
         b.op(f"append 2 {hexbytes(data[len(data) // 2:])}")
         b.op(f"append 3 {hexbytes(data[len(data) // 2:])}")
@@ -248,7 +257,7 @@ def gen_c10(r, tier, info):
         b.op(f"new 5 avx {kstr(key)}")
         b.op("restoreh 6 sse 0")
         b.op("restoreh 7 avx 0")
-        b.tagidx = (t0, t1, t2, t3)
+        b.tagidx = (t0, t1, t2, t3, t4, t5, t6, t7)
         cases.append(b)
     return cases
 
